@@ -206,3 +206,9 @@ let () =
         ^ ",\"dispatch\":" ^ (if dispatches_to_ssbscript t then "true" else "false")
         ^ ",\"head\":" ^ jtext fALLBACK_HEAD ^ "}"
     | _ -> raise (Bad "meta"))
+
+(* C15: the numbering of the command line tools.  (clinum PROGRAM) *)
+let () =
+  register "clinum" (function
+    | L [ _; p ] -> "{\"r\":\"ok\",\"ops\":" ^ jprogram (cli_number (as_program p)) ^ "}"
+    | _ -> raise (Bad "clinum"))
